@@ -36,6 +36,10 @@ type CheckReport struct {
 	Wall        float64
 	Obligations int
 	Discharged  int
+	// thorough tier: sensitivity of the check (its must-fail / must-stay-green mutants re-run)
+	MutantsRun      int
+	MutantsAsExpect int
+	MutantDetails   []string
 }
 
 type Violation struct {
@@ -393,6 +397,9 @@ func WriteEvidence(o CheckOpts, rep *CheckReport, violations int, known []string
 		"by_solver":                perSolver,
 		"solver_time_s":            round3(solverTime),
 		"known_findings":           known,
+		"sensitivity_mutants_run":          rep.MutantsRun,
+		"sensitivity_mutants_as_expected":  rep.MutantsAsExpect,
+		"sensitivity_mutants":              rep.MutantDetails,
 		"machinery_errors":         rep.Broken,
 	}
 	ev := map[string]any{
